@@ -12,7 +12,7 @@ CHECKS = {
    category="fault_enumeration",
    technique="deterministic simulation of single searches with limit-abort fault enumeration (every backtrack index / branch-stack depth) plus an in-VM progress monitor over logical time",
    text="Every (pattern, text, start) of a seeded workload is first run fault-free under the hook's own counters, then aborted at every backtrack index 0..N+1 and every branch-stack capacity 0..P+1 (capped, then sampled) through the limit-override hook and, on a sample, through RegexBuilder::backtrack_limit. Oracle per clause: an aborted run returns the injected error kind or exactly the unlimited answer; limits at or above the measured need are transparent; a limit error is legitimate only if the hook's independent count reached the limit; no configuration (pc, ix, slots, aux stack) repeats between two backtracks (so the machine cannot spin). fault_enumeration because the abort points of each case are enumerated, the cases themselves are sampled.",
-   note="Trusts: the answer of the fault-free run (C01/C02 are not decided here); the hook counters placed next to the VM's own (add-only lines). Workload texts are <= 8 characters.",
+   note="Trusts: the answer of the fault-free run (C01/C02 are not decided here); the hook counters placed next to the VM's own (add-only lines). Workload texts are <= 8 characters (14 in a third of the thorough tier).",
    design="4.1"),
  "C08": dict(
    category="exploration",
